@@ -875,7 +875,8 @@ def run(ctx, only=None):
                 "data are valid; pipeline cases = object (SRF/Krige/CondSRF/Field) x normalizer x mesh x mean/trend kind x value type; "
                 "distinct = distinct (class, lmbda, shift, entry point) / pipeline configuration keys")
     ctx.trusted = [
-        "Coq 8.16.1 kernel (coqc); no native_compute",
+        "Coq 8.16.1 kernel (coqc); no native_compute; standard-library axioms as printed (sig_not_dec, sig_forall_dec, "
+        "functional_extensionality_dep, Classical_Prop.classic); C18_nan_policy and C18_loglik_ignores_invalid are closed",
         "the hand-written Gallina model coq/c18/C18_Model.v (tied to /repo by execution on every run)",
         "extraction (ExtrOcamlBasic only), OCaml 4.13, ocaml/proto.ml float instance; ocaml/drv_c18.ml maps expm1/log1p to glibc",
         "real-number reading of the operations: Rpower x y = exp (y ln x), expm1 x = exp x - 1, log1p x = ln (1 + x); IEEE rounding not modelled",
